@@ -359,8 +359,23 @@ def _memo_rule(ctx: Ctx, rs: RuleSet):
         parts.append(unparse(roles.value_at(gg, n, x)[0]))
     return ' '.join(parts)
 
-  hits = [n for n in g.nodes() if g.kind[n] == 'if' and
-          '_deserialized_objects' in _test_text(g, n)]
+  def _hit_test(gg, n):
+    # `key in <table>`, or a looked-up entry compared by identity with the
+    # value that stands for "absent" - not its truthiness (an empty container
+    # that was deserialized is an entry too)
+    t = gg.stmt[n].test
+    for c in ast.walk(t):
+      if isinstance(c, ast.Compare) and len(c.ops) == 1:
+        if isinstance(c.ops[0], (ast.In, ast.NotIn)) and (
+            '_deserialized_objects' in unparse(c.comparators[0])):
+          return True
+        if isinstance(c.ops[0], (ast.Is, ast.IsNot)) and isinstance(
+            c.left, ast.Name) and '_deserialized_objects' in unparse(
+                roles.value_at(gg, n, c.left)[0]):
+          return True
+    return False
+
+  hits = [n for n in g.nodes() if g.kind[n] == 'if' and _hit_test(g, n)]
   rs.check(bool(stores) and bool(hits), rule, f'{dr.qualname}',
            'each referenced object is deserialized once and cached by key '
            '(sharing is reproduced)', ctx.loc(dr, dr.node))
